@@ -72,7 +72,7 @@ def expiry_rules(ctx, tag, side, table):
     rms = [(g, bb, t) for g in bodies for bb, t in g.calls() if callee_is(t, 'HashMap::remove', 'HashMap::remove_entry')]
     R.ob(tag + '.expiry', (side + ' table expiry', 'removes the expired entry'), len(rms) == 1, 'expiry removes one map entry', [g.loc(t) for g, _, t in rms] or [exp.loc(exp.d)])
     for g, bb, t in rms:
-        kr = P.root(P.operand(g, t['args'][1], at=bb), through_params=True)
+        kr = P.root(P.operand(g, t['args'][1], at=bb), through_params=True, callers={b.id for b in bodies})   # a shared private helper is judged in the expiry's own calling context
         ok = bool(kr) and all(P.unbound(r) == pe_term and ('v', 'Some') in p for r, p in kr)
         R.ob(tag + '.expiry', (side + ' table expiry', 'removal keyed by the expired timer\'s id'), ok,
              'the entry removed on expiry is the one whose timer fired (key = the Expired item\'s value, on the Some edge)', [g.loc(t)],
